@@ -639,6 +639,75 @@ theorem cmp_props (a b c : List Nat) :
       · split at h' <;> omega
     simp [bytesLt_trans a b c hab hbc]
 
+/-! ## The own properties of a String object -/
+
+/-- a name accepted by stringToArrayIndex is the canonical numeral of its index (fix da2af68) -/
+theorem stringToArrayIndex_canonical (name : List Nat) (h : stringToArrayIndex name ≥ 0) :
+    name = formatNat (stringToArrayIndex name).toNat := by
+  unfold stringToArrayIndex at h ⊢
+  split at h
+  · rename_i i _
+    split at h
+    · omega
+    · split at h
+      · omega
+      · split at h
+        · omega
+        · rename_i h1 h2 h3
+          simp only [h1, h2, h3, if_false]
+          simp only [ne_eq, Decidable.not_not] at h3
+          exact h3.symm
+  · omega
+
+/-- C09.ownNames_iff: Object.getOwnPropertyNames lists exactly the names hasOwnProperty accepts — the stored
+    properties and the computed index properties alike (every own property is visited by stringEnumerate). -/
+theorem ownNames_iff (o : SObj) (name : List Nat) : name ∈ o.ownNames ↔ o.hasOwn name = true := by
+  unfold SObj.ownNames
+  rw [List.mem_filter]
+  constructor
+  · exact fun h => h.2
+  · intro h
+    refine ⟨?_, h⟩
+    unfold SObj.enumerate
+    rw [List.mem_append]
+    simp only [SObj.hasOwn, SObj.getOwn, Bool.or_eq_true] at h
+    rcases h with h | h
+    · right
+      rw [List.mem_filter]
+      exact ⟨by simpa using h, by simp⟩
+    · left
+      unfold SObj.indexUnit at h
+      simp only [] at h
+      split at h
+      · rename_i hge
+        unfold stringAt at h
+        split at h
+        · rename_i hin
+          unfold indexNames
+          rw [List.mem_map]
+          refine ⟨(stringToArrayIndex name).toNat, ?_, (stringToArrayIndex_canonical name hge).symm⟩
+          rw [List.mem_range]; omega
+        · simp at h
+      · simp at h
+
+/-- C09.keys_subset_partial: every name Object.keys / for-in yields is an own property.  Full statement: without
+    `hidx`; the hypothesis is the parse∘format round trip of the strconv stubs on the indices below the length. -/
+theorem keys_subset_partial (o : SObj) (name : List Nat) (h : name ∈ o.keys) (hidx : ∀ i, i < strLength o.s →
+    stringToArrayIndex (formatNat i) = i) : o.hasOwn name = true := by
+  unfold SObj.keys SObj.enumerate at h
+  rw [List.mem_append] at h
+  simp only [SObj.hasOwn, SObj.getOwn, Bool.or_eq_true]
+  rcases h with h | h
+  · right
+    unfold indexNames at h
+    rw [List.mem_map] at h
+    obtain ⟨i, hi, rfl⟩ := h
+    rw [List.mem_range] at hi
+    simp [SObj.indexUnit, hidx i hi, stringAt, hi]
+  · left
+    rw [List.mem_filter] at h
+    simpa using h.1
+
 /-! ## Deviation regions: kernel-checked witnesses (each is replayed on the real code by the harness) -/
 
 /-- a parameter instance for the witnesses (no string→number or number→string conversion occurs) -/
@@ -686,6 +755,20 @@ example : fromCharCode E0 [.f64 (.fin false (2^52 + 1) 11)] = .str [2048] ∧
 example : toUpperCase E0 (.strObj [0xC3, 0x9F]) [] = .str [0xDF] ∧ Spec.toUpperCase E0 (.strObj [0xC3, 0x9F]) [] = .str [0x53, 0x53] := by decide
 example : toLowerCase E0 (.strObj [0xC4, 0xB0]) [] = .str [0x69] ∧ Spec.toLowerCase E0 (.strObj [0xC4, 0xB0]) [] = .str [0x69, 0x307] := by decide
 example : toLowerCase E0 (.strObj [0xF0, 0x90, 0x90, 0x80]) [] ≠ Spec.toLowerCase E0 (.strObj [0xF0, 0x90, 0x90, 0x80]) [] := by decide
+
+
+-- index_not_enumerable: Object.getOwnPropertyDescriptor(new String("abc"), "1").enumerable / propertyIsEnumerable
+example : (SObj.build sABC []).desc [0x31] = .arr [[0x62], [0, 0, 0]] ∧ Spec.desc (U sABC) [] [0x31] = .arr [[0x62], [0, 1, 0]] := by decide
+example : (SObj.build sABC []).isEnumerable [0x31] = false ∧ Spec.isEnumerable (U sABC) [] [0x31] = true := by decide
+-- define_index_shadow: Object.defineProperty(new String("abc"), "0", {value: "x"})
+example : (SObj.build sABC []).defineX [0x30] = .str [120] ∧ Spec.defineX (U sABC) [] [0x30] = .throwType := by decide
+-- agreement of the own-property set on an example with expandos ("foo", "5", an ignored "0" and "length")
+example : (SObj.build sABC [[102, 111, 111], [0x35], [0x30], sLength]).ownNames =
+    [[0x30], [0x31], [0x32], sLength, [102, 111, 111], [0x35]] ∧
+    Spec.ownNames (U sABC) [[102, 111, 111], [0x35], [0x30], sLength] =
+    [[0x30], [0x31], [0x32], sLength, [102, 111, 111], [0x35]] := by decide
+example : (SObj.build sABC []).hasOwn [0x30, 0x31] = false ∧ (SObj.build sABC []).hasOwn [0x33] = false ∧
+    (SObj.build sABC []).hasOwn [0x32] = true ∧ (SObj.build sAXB []).hasOwn [0x33] = true := by decide
 
 /-! ## Non-vacuity of the side conditions -/
 example : NoLone (.strObj sAXB) ∧ NoLone (.val16 [0xD835, 0xDCB3]) ∧ SmallInt (num 2) ∧ SmallInt (.int .i64 7) ∧ ¬ NoLone (.val16 [0xD800]) := by
